@@ -1430,7 +1430,9 @@ class FnTranslator:
                 ity = self.expr(st[0].slice, env)[1]
             except Refuse:
                 ity = None
-            if ity == 'Z':
+            if ity in ('Z', 'S'):
+                # ('S': [loop ties C05] d[key] = v on a dict with a string key -- a store to the one entry d[key], a variable
+                #  named by the source text of the target, exactly like the integer-indexed array element)
                 for node in (st[1],):
                     ast.fix_missing_locations(ast.Expression(body=node))
                 return ast.unparse(st[0]), st[1]
